@@ -43,6 +43,9 @@ def predicate(name, r):
     trace = flatten(r.get("trace") or [])
     ks = edit_kinds(trace)
     ops = step_ops(trace)
+    if name == "c19_merge_by_later_author":
+        x = cfg.get("extra") or {}
+        return bool(x.get("repair_merge")) and bool(x.get("swap"))
     if name == "hostile_step_present":
         return any(st.get("op") in ("decode_hostile", "corrupt_store") or str(st.get("net", "")).startswith("corrupt_") for st in trace)
     if name == "wrong_credential_kind":
@@ -265,6 +268,8 @@ def match(findings, r, replayer=None):
         if key.get("class_re") and not re.search(key["class_re"], v.get("class", "")):
             continue
         if key.get("profile_re") and not re.search(key["profile_re"], r.get("profile", "")):
+            continue
+        if key.get("detail_re") and not re.search(key["detail_re"], v.get("detail", "")):
             continue
         ok = True
         for p in key.get("requires", []):
